@@ -129,3 +129,50 @@ func H_C03_twin() {
 	res, _ := d.Search(context.Background(), &query.Substring{Pattern: "needle"}, &zoekt.SearchOptions{})
 	verifrt.Assert(len(res.Files) == 77, "twin")
 }
+
+// H_C03_column (kernel): columnHelper.get after an arbitrary history of lookups, on symbolic
+// data (ASCII, the two bytes of a two-byte rune, newlines), for a symbolic next query that lies on
+// a line: the column is 1 + the number of runes between the line start and the offset, 
+func H_C03_column() {
+	n := verifrt.Concretize(verifrt.IntRange("len", 1, verifrt.Param("datalen", 5, 6)))
+	data := verifrt.Bytes("data", n)
+	for _, c := range data {
+		verifrt.Assume(verifrt.Or(verifrt.Or(c == 'a', c == '\n'), verifrt.Or(c == 0xC3, c == 0xA9)))
+	}
+	lineStartOK := func(ls, off int) bool {
+		// ls is the start of the line the position belongs to: at 0 or after a newline, with no newline
+		// in between - except that an exclusive range end may sit just past its line's own newline
+		ok := ls == 0 || data[ls-1] == '\n'
+		for i := ls; i < off-1 && i < n; i++ {
+			ok = verifrt.And(ok, data[i] != '\n')
+		}
+		return ok
+	}
+	// match boundaries are rune boundaries (candidates come from the rune-based index or from the
+	// regexp engine): an offset never splits the two bytes of a valid rune
+	boundary := func(i int) bool {
+		if i <= 0 || i >= n {
+			return true
+		}
+		return !verifrt.And(data[i-1] == 0xC3, data[i] == 0xA9)
+	}
+	// arbitrary previous lookups (none or one; by induction over correct lookups): the helper's cache only ever describes its last
+	// lookup, so this reaches every cache state; the private fields are not touched
+	c := columnHelper{data: data}
+	for h, hist := 0, verifrt.Concretize(verifrt.IntRange("history", 0, 1)); h < hist; h++ {
+		pls := verifrt.Concretize(verifrt.IntRange("prevLineStart", 0, n))
+		poff := verifrt.Concretize(verifrt.IntRange("prevOffset", pls, n))
+		verifrt.Assume(lineStartOK(pls, poff))
+		verifrt.Assume(boundary(poff))
+		c.get(pls, uint32(poff))
+	}
+	ls := verifrt.Concretize(verifrt.IntRange("lineStart", 0, n))
+	off := verifrt.Concretize(verifrt.IntRange("offset", ls, n))
+	verifrt.Assume(lineStartOK(ls, off))
+	verifrt.Assume(boundary(off))
+	got := c.get(ls, uint32(off))
+	want := uint32(1 + utf8.RuneCount(data[ls:off]))
+	verifrt.Observe("col", got)
+	verifrt.Assert(got == want, "the column is one plus the number of runes between the line start and the offset")
+	verifrt.Reach("returned")
+}
